@@ -145,6 +145,7 @@ type fsmInst struct {
 	fs     vfs.FS
 	srt    fsm.SnapshotRecoveryType
 	notif  []uint64
+	vis    []uint64 // local index visible to a reader at the moment of each notification
 	closed bool
 }
 
@@ -155,7 +156,17 @@ func newFsmInst(srt fsm.SnapshotRecoveryType) *fsmInst {
 }
 
 func (in *fsmInst) open() uint64 {
-	in.f = fsm.New("tab", "/data", in.fs, nil, nil, in.srt, func(a uint64) { in.notif = append(in.notif, a) })(1, 1).(*fsm.FSM)
+	var self *fsm.FSM
+	self = fsm.New("tab", "/data", in.fs, nil, nil, in.srt, func(a uint64) {
+		// a waiter released by this notification reads next: what does it see?
+		v := uint64(0)
+		if r, err := self.Lookup(fsm.LocalIndexRequest{}); err == nil {
+			v = r.(*fsm.IndexResponse).Index
+		}
+		in.notif = append(in.notif, a)
+		in.vis = append(in.vis, v)
+	})(1, 1).(*fsm.FSM)
+	in.f = self
 	idx, err := in.f.Open(nil)
 	must(err)
 	in.closed = false
@@ -168,9 +179,9 @@ func (in *fsmInst) takeNotif() string {
 		if i > 0 {
 			sb.WriteByte(',')
 		}
-		fmt.Fprintf(&sb, "%d", n)
+		fmt.Fprintf(&sb, "%d@%d", n, in.vis[i])
 	}
-	in.notif = nil
+	in.notif, in.vis = nil, nil
 	if sb.Len() == 0 {
 		return "none"
 	}
@@ -242,12 +253,12 @@ func (in *fsmInst) update(out *Out, id int, es []fsmEntry) {
 			must(cr.UnmarshalVT(r.Result.Data))
 			fmt.Fprintf(&ab, " %d %d %s", r.Result.Value, cr.Revision, aResps(cr.Responses))
 		}
-		n := in.notif
-		in.notif = nil
+		n, v := in.notif, in.vis
+		in.notif, in.vis = nil, nil
 		if len(n) != 1 {
 			return fmt.Sprintf("ok notified-%d-times %s", len(n), ab.String())
 		}
-		return fmt.Sprintf("ok %d %s", n[0], ab.String())
+		return fmt.Sprintf("ok %d@%d %s", n[0], v[0], ab.String())
 	})
 	out.Line(sb.String(), ans)
 	out.Count("upd")
@@ -573,7 +584,7 @@ func fsmHistory(out *Out, r *rand.Rand) {
 	g := newFsmGen(r)
 	in := newFsmInst(fsm.SnapshotRecoveryType(r.Intn(2)))
 	defer in.f.Close()
-	in.notif = nil
+	in.notif, in.vis = nil, nil
 	out.Line("new 0", "ok")
 	idx := uint64(0)
 	li := uint64(0)
@@ -663,7 +674,7 @@ func fsmTwin(out *Out, r *rand.Rand) {
 	ins := make([]*fsmInst, 3)
 	for i := range ins {
 		ins[i] = newFsmInst(fsm.SnapshotRecoveryType(r.Intn(2)))
-		ins[i].notif = nil
+		ins[i].notif, ins[i].vis = nil, nil
 		out.Line(fmt.Sprintf("new %d", i), "ok")
 	}
 	defer func() {
@@ -683,7 +694,7 @@ func fsmTwin(out *Out, r *rand.Rand) {
 		switch r.Intn(4) {
 		case 0: // clean close and reopen on the same file system
 			must(ins[2].f.Close())
-			ins[2].notif = nil
+			ins[2].notif, ins[2].vis = nil, nil
 			i := ins[2].open()
 			out.Line("reopen 2", fmt.Sprintf("ok %d %s", i, ins[2].takeNotif()))
 			out.Count("reopen")
@@ -693,7 +704,7 @@ func fsmTwin(out *Out, r *rand.Rand) {
 			var buf bytes.Buffer
 			must(ins[2].f.SaveSnapshot(ctx, &buf, nil))
 			ni := newFsmInst(fsm.SnapshotRecoveryType(r.Intn(2)))
-			ni.notif = nil
+			ni.notif, ni.vis = nil, nil
 			must(ni.f.RecoverFromSnapshot(&buf, nil))
 			ins[2].f.Close()
 			ins[2] = ni
@@ -712,7 +723,7 @@ func fsmTwin(out *Out, r *rand.Rand) {
 func fsmSize(out *Out, r *rand.Rand) {
 	in := newFsmInst(fsm.SnapshotRecoveryType(r.Intn(2)))
 	defer in.f.Close()
-	in.notif = nil
+	in.notif, in.vis = nil, nil
 	out.Line("new 0", "ok")
 	idx := uint64(0)
 	nk := 3 + r.Intn(6)
